@@ -69,12 +69,13 @@ impl FeatureRewriterBuilder {
             } else {
                 Pattern::Exact(p.to_string())
             };
-            for action in &self.nodes[cursor].actions {
-                if let Action::Transition(edge) = action {
-                    if parsed == edge.pattern {
-                        cursor = edge.target;
-                        continue 'a;
-                    }
+            // Only the most recently added edge may be shared. Sharing an older edge would
+            // place this rule before rules registered after that edge, and the matcher tries
+            // actions in insertion order.
+            if let Some(Action::Transition(edge)) = self.nodes[cursor].actions.last() {
+                if parsed == edge.pattern {
+                    cursor = edge.target;
+                    continue 'a;
                 }
             }
             let target = self.nodes.len();
